@@ -72,6 +72,10 @@ def select_one_or_select_many_or_infer(quantifier: Union[Type[An], Type[The], Ty
     elif entity_ is None and has_type:
         entity_ = has_type()
     if isinstance(entity_, (Entity, SetOf)):
+        if properties:
+            # they would be dropped without a word, and the query would answer for fewer conditions than were written.
+            raise ValueError(f'Conditions given next to a description are not part of it: write them inside '
+                             f'entity(...) / set_of(...), got {len(properties)} outside.')
         q = quantifier(entity_)
     elif isinstance(entity_, ResultQuantifier) and not properties:
         # e.g. a predicate-form term T(From(d), f=v), which is already wrapped in An: requantify its description
